@@ -132,7 +132,9 @@ func pl0() *pool {
 	return pl
 }
 
-func addr(id uint64) ethcommon.Address { return ethcommon.BigToAddress(new(big.Int).SetUint64(addrBase + id)) }
+func addr(id uint64) ethcommon.Address {
+	return ethcommon.BigToAddress(new(big.Int).SetUint64(addrBase + id))
+}
 
 func addrID(a []byte) uint64 {
 	x := new(big.Int).SetBytes(a)
@@ -169,15 +171,15 @@ type shareEnt struct {
 }
 
 type absEvent struct {
-	kind                    string // OA OR VA VR VX CL CR FR XX
-	id, owner, pk, v, fee   uint64
-	blk                     uint64
-	ops                     []uint64
-	length                  uint64     // VA: len(Shares)
-	sig                     *[3]uint64 // VA: (validator, owner, nonce) the signature is valid for; nil: none
-	sigKind                 string     // for sig == nil: rand | other
-	shares                  []shareEnt
-	xx                      string // XX: topic | trunc | notopic | oapk  (a log with EMPTY data is not one:
+	kind                  string // OA OR VA VR VX CL CR FR XX
+	id, owner, pk, v, fee uint64
+	blk                   uint64
+	ops                   []uint64
+	length                uint64     // VA: len(Shares)
+	sig                   *[3]uint64 // VA: (validator, owner, nonce) the signature is valid for; nil: none
+	sigKind               string     // for sig == nil: rand | other
+	shares                []shareEnt
+	xx                    string // XX: topic | trunc | notopic | oapk  (a log with EMPTY data is not one:
 	// go-ethereum's UnpackLog skips empty data and the event parses with zero values)
 }
 
@@ -390,7 +392,7 @@ func (p *pool) sharesData(e *absEvent) []byte {
 }
 
 func topicAddr(a ethcommon.Address) ethcommon.Hash { return ethcommon.BytesToHash(a.Bytes()) }
-func topicU64(x uint64) ethcommon.Hash              { return ethcommon.BigToHash(new(big.Int).SetUint64(x)) }
+func topicU64(x uint64) ethcommon.Hash             { return ethcommon.BigToHash(new(big.Int).SetUint64(x)) }
 
 var cluster = contract.ISSVNetworkCoreCluster{ValidatorCount: 1, NetworkFeeIndex: 1, Index: 1, Active: true, Balance: big.NewInt(100)}
 
